@@ -164,3 +164,16 @@ func TestC06MoreSemantics(t *testing.T) {
 	check("s = :v", map[string]*types.Item{":v": s("x")}, true) // the item holds an empty binary
 	check("attribute_type(eb, :t)", map[string]*types.Item{":t": s("B")}, true)
 }
+
+// C06: a set has no order; two binary sets with the same elements are equal however they were written,
+// at the top level, inside a list, under IN and contains().
+func TestC06BinarySetEqualityIgnoresOrder(t *testing.T) {
+	item := map[string]*types.Item{"bs": {BS: [][]byte{[]byte("a"), []byte("b")}}, "l": {L: []*types.Item{{BS: [][]byte{[]byte("a"), []byte("b")}}}}}
+	p := &types.Item{BS: [][]byte{[]byte("b"), []byte("a")}}
+	for e, want := range map[string]bool{"bs = :v": true, "bs <> :v": false, "bs IN (:v)": true, "contains(l, :v)": true, "l[0] = :v": true, ":v = bs": true} {
+		r, err, c := match(e, item, map[string]*types.Item{":v": p}, nil)
+		if err != nil || c != nil || r != want {
+			t.Errorf("%q: res=%v err=%v crash=%v, want %v", e, r, err, c, want)
+		}
+	}
+}
